@@ -202,6 +202,16 @@ def oracle_gfa1(case):
                 ok = (ed[-1] == '+' and fwd) or (ed[-1] == '-' and rev)
                 if not ok:
                     out.append(('converted path step %s %s %s does not traverse that edge in that direction' % (a, ed, b), None, e[:4]))
+                elif fwd and rev and f[3] != '*' and len(e) > 8 and e[8] != '*' and i < len(f[3].split(',')):
+                    # an edge from a segment end to itself fits both ways as far as the oriented segments go: the overlap
+                    # quoted by the path decides (as written: along the edge; its complement: against it)
+                    ov = f[3].split(',')[i]
+                    cp = impl.outcome(lambda: str(g.Alignment(ov, version='gfa1').complement()))
+                    if ov != '*' and cp[0] == 'ok' and cp[1] != ov:
+                        want = '+' if e[8] == ov else ('-' if e[8] == cp[1] else None)
+                        if want is not None and ed[-1] != want:
+                            out.append(('converted path step %s %s %s over an edge of a segment end with itself reads the alignment %s in the wrong direction'
+                                        % (a, ed, b, ov), want, ed[-1]))
             if tagset(o[3:]) != tagset(f[4:]):
                 out.append(('path tags not carried over', tagset(f[4:]), tagset(o[3:])))
     if out:
@@ -375,6 +385,9 @@ def judge(ctx, case, fails):
 
 # hand-made documents that run first
 FIXED = [
+    # a link from a segment end to itself (A+ to A-): only the alignment tells in which direction a path reads it
+    {'kind': 'gfa1', 'doc': ['H\tVN:Z:1.0', 'S\tA\t*\tLN:i:100', 'S\tB\t*\tLN:i:50', 'L\tA\t+\tA\t-\t3M1D2M\tID:Z:aa', 'L\tB\t-\tB\t+\t1I4M\tID:Z:bb',
+                             'P\tp\tA+,A-\t2M1I3M', 'P\tq\tA+,A-\t3M1D2M', 'P\tr\tB-,B+\t4M1D', 'P\tt\tB-,B+\t1I4M']},
     # ordered groups over dovetails whose alignment is not its own complement, walked along and against the edge, with the
     # first segment of the edge on either side of the GFA1 link
     {'kind': 'gfa2', 'doc': ['S\ta\t10\t*', 'S\tb\t10\t*', 'S\tc\t10\t*', 'E\te1\ta+\tb+\t0\t3\t7\t10$\t2M1D1M', 'E\te2\tb+\tc-\t0\t4\t0\t3\t1M1I2M',
